@@ -35,6 +35,7 @@ type dec struct {
 	lvl    int      // solver level before this entry was processed
 	big    bool     // dConc: the chosen value stands for "all values above the cap"
 	altModel map[string]uint64 // dBranch: a model of the false side (reused after backtracking)
+	fromObl  bool              // dAssume: created by a violated obligation (re-applied on replay)
 }
 
 // pathEnd is the host panic used to abandon the current path.
@@ -365,6 +366,14 @@ func (ex *Exec) pushAssert(d *dec, c *term.T) {
 	d.pushed = true
 }
 
+// replayObl re-applies, during replay, the assumptions that violated
+// obligations left in the trace (the obligations themselves are not re-checked).
+func (ex *Exec) replayObl() {
+	for ex.pos < len(ex.trace) && ex.trace[ex.pos].kind == dAssume && ex.trace[ex.pos].fromObl {
+		ex.assumeNoFlush(ex.trace[ex.pos].cond)
+	}
+}
+
 // evalModel evaluates c under the cached model of the path condition.
 func (ex *Exec) evalModel(c *term.T) (bool, bool) {
 	if ex.model == nil {
@@ -408,6 +417,7 @@ func (ex *Exec) Branch(c *term.T) bool {
 }
 
 func (ex *Exec) branch1(c *term.T) bool {
+	ex.replayObl()
 	if ex.replaying() {
 		d := ex.trace[ex.pos]
 		ex.pos++
@@ -489,6 +499,7 @@ func (ex *Exec) Assume(c *term.T) {
 	if c.IsTrue() {
 		return
 	}
+	ex.replayObl()
 	if !ex.replaying() {
 		ex.flush()
 	}
@@ -601,7 +612,11 @@ func (ex *Exec) flush() {
 			ex.C.UnknownObl++
 		default:
 			ex.reportViolation(p.label, p.kind, p.pos, vals)
+			n0 := len(ex.trace)
 			ex.assumeNoFlush(p.c)
+			if len(ex.trace) > n0 {
+				ex.trace[n0].fromObl = true
+			}
 		}
 	}
 }
@@ -677,6 +692,7 @@ func (ex *Exec) Concretize(t *term.T, what string) uint64 {
 	if t.IsConst() {
 		return t.Val
 	}
+	ex.replayObl()
 	if ex.replaying() {
 		d := ex.trace[ex.pos]
 		ex.pos++
@@ -737,6 +753,7 @@ func (ex *Exec) Choose(n int) int {
 		}
 		return c
 	}
+	ex.replayObl()
 	if ex.replaying() {
 		d := ex.trace[ex.pos]
 		ex.pos++
